@@ -155,7 +155,8 @@ func WellFormed(h *keyset.Handle) string {
 	}
 	for _, ki := range info.GetKeyInfo() {
 		switch ki.GetOutputPrefixType() {
-		case tinkpb.OutputPrefixType_TINK, tinkpb.OutputPrefixType_LEGACY, tinkpb.OutputPrefixType_RAW, tinkpb.OutputPrefixType_CRUNCHY:
+		case tinkpb.OutputPrefixType_TINK, tinkpb.OutputPrefixType_LEGACY, tinkpb.OutputPrefixType_RAW, tinkpb.OutputPrefixType_CRUNCHY,
+			tinkpb.OutputPrefixType_WITH_ID_REQUIREMENT: // 5: a defined prefix type (ML-DSA prehash variant), admitted by keyset.Validate since fix 31ba220
 		default:
 			return fmt.Sprintf("key %d has unknown prefix type %v", ki.GetKeyId(), ki.GetOutputPrefixType())
 		}
